@@ -9,6 +9,7 @@ from .tape import Tape, derive_seed
 # property -> list of (scenario name, module, function, weight)
 SCENARIOS = {
     "C14": [("heap", "sim.heapsim", "run", 1)],
+    "C09": [("twin", "sim.c09", "run", 1)],
 }
 
 
